@@ -989,8 +989,9 @@ def is_strictness_fulfilled(
             rounding_errors = results.termination_cause == "rounding_errors"  # noqa
             maxevals_exceeded = results.termination_cause == "maxevals_exceeded"  # noqa
             sigdigs = ArrayEvaluator([results.significant_digits])  # noqa
-            final_zero_gradient = 'final_zero_gradient' in results.warnings  # noqa
-            estimate_near_boundary = 'estimate_near_boundary' in results.warnings  # noqa
+            res_warnings = results.warnings if results.warnings is not None else []
+            final_zero_gradient = 'final_zero_gradient' in res_warnings  # noqa
+            estimate_near_boundary = 'estimate_near_boundary' in res_warnings  # noqa
             if 'condition_number' in args_in_statement:
                 if results.covariance_matrix is not None:
                     condition_number = ArrayEvaluator(  # noqa
